@@ -324,6 +324,12 @@ func reifyStruct(opts *options, orig reflect.Value, cfg *Config) Error {
 					if err := reifyInto(fInfo.options, fInfo.value, cfg); err != nil {
 						return err
 					}
+					// the validators of the field apply to an inlined struct or
+					// map like to a named one (and like to inlined lists)
+					inlined := chaseValuePointers(fInfo.value).Interface()
+					if err := runValidators(inlined, fInfo.validatorTags); err != nil {
+						return raiseValidation(cfg.ctx, cfg.metadata, "", err)
+					}
 				case reflect.Slice, reflect.Array:
 					fopts := fieldOptions{opts: fInfo.options, tag: fInfo.tagOptions, validators: fInfo.validatorTags}
 					v, err := reifyMergeValue(fopts, fInfo.value, cfgSub{cfg})
